@@ -15,7 +15,8 @@
   * `Model.Field` — the element wrappers (`bytes`, `setBytes`, `invert`, `multiSelectLimbs`, …) over
     `montOps` = Montgomery residues as natural numbers, instantiated as `Model.SM2.Fp`, `Model.SM2.Fn`.
   `eval l` is the value of four little-endian 64-bit limbs, `Canon m l` says: four limbs below 2^64
-  with value below `m`.  R = 2^256.
+  with value below `m`.  `Model.Field.R` = 2^256 (the statements use this core definition and the
+  literal 18446744073709551616 = 2^64 so that no Mathlib power instance enters the statements).
 -/
 import SMGo.Proofs.FiatSmallP
 import SMGo.Proofs.FiatSmallN
@@ -24,6 +25,7 @@ import SMGo.Proofs.FiatMulN
 import SMGo.Proofs.FiatMontP
 import SMGo.Proofs.FiatMontN
 import SMGo.Proofs.FiatRefine
+import SMGo.Proofs.FiatInst
 import SMGo.Proofs.FiatWrappers
 import SMGo.Proofs.AddChainExp
 import SMGo.Proofs.AddChainInv
@@ -58,11 +60,11 @@ theorem selectznz_spec (a b : List Nat) (ha : Limbs4 a) (hb : Limbs4 b) :
     sm2Selectznz 0 a b = a ∧ sm2Selectznz 1 a b = b :=
   ⟨FiatSmallP.selectznz_zero a b ha, FiatSmallP.selectznz_one a b hb⟩
 
-theorem setOne_spec : Canon Spec.SM2.p sm2SetOne ∧ eval sm2SetOne = 2 ^ 256 % Spec.SM2.p :=
+theorem setOne_spec : Canon Spec.SM2.p sm2SetOne ∧ eval sm2SetOne = Model.Field.R % Spec.SM2.p :=
   FiatSmallP.setOne_spec
 
 theorem nonzero_spec (a : List Nat) (ha : Limbs4 a) :
-    (sm2Nonzero a = 0 ↔ eval a = 0) ∧ sm2Nonzero a < 2 ^ 64 :=
+    (sm2Nonzero a = 0 ↔ eval a = 0) ∧ sm2Nonzero a < 18446744073709551616 :=
   FiatSmallP.nonzero_spec a ha
 
 /-- `ToBytes`: 32 bytes, little endian, value of the limbs -/
@@ -84,31 +86,31 @@ theorem toBytes_fromBytes (bs : List Nat) (hl : bs.length = 32) (hb : ∀ x ∈ 
 /-- word-by-word Montgomery multiplication: canonical, and out·R ≡ a·b (mod p) -/
 theorem mul_spec (a b : List Nat) (ha : Canon Spec.SM2.p a) (hb : Canon Spec.SM2.p b) :
     Canon Spec.SM2.p (sm2Mul a b) ∧
-      (eval (sm2Mul a b) * 2 ^ 256) % Spec.SM2.p = (eval a * eval b) % Spec.SM2.p :=
+      (eval (sm2Mul a b) * Model.Field.R) % Spec.SM2.p = (eval a * eval b) % Spec.SM2.p :=
   FiatMulP.mul_spec a b ha hb
 
 /-- the hand-edited squaring (it reuses six 64×64 products) -/
 theorem square_spec (a : List Nat) (ha : Canon Spec.SM2.p a) :
     Canon Spec.SM2.p (sm2Square a) ∧
-      (eval (sm2Square a) * 2 ^ 256) % Spec.SM2.p = (eval a * eval a) % Spec.SM2.p :=
+      (eval (sm2Square a) * Model.Field.R) % Spec.SM2.p = (eval a * eval a) % Spec.SM2.p :=
   FiatMulP.square_spec a ha
 
 theorem fromMontgomery_spec (a : List Nat) (ha : Canon Spec.SM2.p a) :
     Canon Spec.SM2.p (sm2FromMontgomery a) ∧
-      (eval (sm2FromMontgomery a) * 2 ^ 256) % Spec.SM2.p = eval a % Spec.SM2.p :=
+      (eval (sm2FromMontgomery a) * Model.Field.R) % Spec.SM2.p = eval a % Spec.SM2.p :=
   FiatMontP.fromMontgomery_spec a ha
 
 theorem toMontgomery_spec (a : List Nat) (ha : Canon Spec.SM2.p a) :
     Canon Spec.SM2.p (sm2ToMontgomery a) ∧
-      eval (sm2ToMontgomery a) = (eval a * 2 ^ 256) % Spec.SM2.p :=
+      eval (sm2ToMontgomery a) = (eval a * Model.Field.R) % Spec.SM2.p :=
   FiatMontP.toMontgomery_spec a ha
 
 /-- both conversions reduce any four limbs (the wrappers feed non-canonical limbs from `FromBytes`) -/
 theorem montgomery_conversions_total (a : List Nat) (ha : Limbs4 a) :
     (Canon Spec.SM2.p (sm2ToMontgomery a) ∧
-      eval (sm2ToMontgomery a) = (eval a * 2 ^ 256) % Spec.SM2.p) ∧
+      eval (sm2ToMontgomery a) = (eval a * Model.Field.R) % Spec.SM2.p) ∧
     (Canon Spec.SM2.p (sm2FromMontgomery a) ∧
-      (eval (sm2FromMontgomery a) * 2 ^ 256) % Spec.SM2.p = eval a % Spec.SM2.p) :=
+      (eval (sm2FromMontgomery a) * Model.Field.R) % Spec.SM2.p = eval a % Spec.SM2.p) :=
   ⟨FiatMontP.toMontgomery_spec' a ha, FiatMontP.fromMontgomery_spec' a ha⟩
 
 /-- the generated functions compute the operations of the model instance `Fp` (Montgomery residues
@@ -158,11 +160,11 @@ theorem selectznz_spec (a b : List Nat) (ha : Limbs4 a) (hb : Limbs4 b) :
   ⟨FiatSmallN.selectznz_zero a b ha, FiatSmallN.selectznz_one a b hb⟩
 
 theorem setOne_spec :
-    Canon Spec.SM2.n sm2ScalarSetOne ∧ eval sm2ScalarSetOne = 2 ^ 256 % Spec.SM2.n :=
+    Canon Spec.SM2.n sm2ScalarSetOne ∧ eval sm2ScalarSetOne = Model.Field.R % Spec.SM2.n :=
   FiatSmallN.setOne_spec
 
 theorem nonzero_spec (a : List Nat) (ha : Limbs4 a) :
-    (sm2ScalarNonzero a = 0 ↔ eval a = 0) ∧ sm2ScalarNonzero a < 2 ^ 64 :=
+    (sm2ScalarNonzero a = 0 ↔ eval a = 0) ∧ sm2ScalarNonzero a < 18446744073709551616 :=
   FiatSmallN.nonzero_spec a ha
 
 theorem toBytes_spec (a : List Nat) (ha : Limbs4 a) :
@@ -185,29 +187,29 @@ theorem toBytes_fromBytes (bs : List Nat) (hl : bs.length = 32) (hb : ∀ x ∈ 
 /-- Montgomery multiplication mod n (quotient digit T[0]·m' with m' = −n⁻¹ mod 2^64) -/
 theorem mul_spec (a b : List Nat) (ha : Canon Spec.SM2.n a) (hb : Canon Spec.SM2.n b) :
     Canon Spec.SM2.n (sm2ScalarMul a b) ∧
-      (eval (sm2ScalarMul a b) * 2 ^ 256) % Spec.SM2.n = (eval a * eval b) % Spec.SM2.n :=
+      (eval (sm2ScalarMul a b) * Model.Field.R) % Spec.SM2.n = (eval a * eval b) % Spec.SM2.n :=
   FiatMulN.mul_spec a b ha hb
 
 theorem square_spec (a : List Nat) (ha : Canon Spec.SM2.n a) :
     Canon Spec.SM2.n (sm2ScalarSquare a) ∧
-      (eval (sm2ScalarSquare a) * 2 ^ 256) % Spec.SM2.n = (eval a * eval a) % Spec.SM2.n :=
+      (eval (sm2ScalarSquare a) * Model.Field.R) % Spec.SM2.n = (eval a * eval a) % Spec.SM2.n :=
   FiatMulN.square_spec a ha
 
 theorem fromMontgomery_spec (a : List Nat) (ha : Canon Spec.SM2.n a) :
     Canon Spec.SM2.n (sm2ScalarFromMontgomery a) ∧
-      (eval (sm2ScalarFromMontgomery a) * 2 ^ 256) % Spec.SM2.n = eval a % Spec.SM2.n :=
+      (eval (sm2ScalarFromMontgomery a) * Model.Field.R) % Spec.SM2.n = eval a % Spec.SM2.n :=
   FiatMontN.fromMontgomery_spec a ha
 
 theorem toMontgomery_spec (a : List Nat) (ha : Canon Spec.SM2.n a) :
     Canon Spec.SM2.n (sm2ScalarToMontgomery a) ∧
-      eval (sm2ScalarToMontgomery a) = (eval a * 2 ^ 256) % Spec.SM2.n :=
+      eval (sm2ScalarToMontgomery a) = (eval a * Model.Field.R) % Spec.SM2.n :=
   FiatMontN.toMontgomery_spec a ha
 
 theorem montgomery_conversions_total (a : List Nat) (ha : Limbs4 a) :
     (Canon Spec.SM2.n (sm2ScalarToMontgomery a) ∧
-      eval (sm2ScalarToMontgomery a) = (eval a * 2 ^ 256) % Spec.SM2.n) ∧
+      eval (sm2ScalarToMontgomery a) = (eval a * Model.Field.R) % Spec.SM2.n) ∧
     (Canon Spec.SM2.n (sm2ScalarFromMontgomery a) ∧
-      (eval (sm2ScalarFromMontgomery a) * 2 ^ 256) % Spec.SM2.n = eval a % Spec.SM2.n) :=
+      (eval (sm2ScalarFromMontgomery a) * Model.Field.R) % Spec.SM2.n = eval a % Spec.SM2.n) :=
   ⟨FiatMontN.toMontgomery_spec' a ha, FiatMontN.fromMontgomery_spec' a ha⟩
 
 theorem refines_Fn (a b : List Nat) (ha : Canon Spec.SM2.n a) (hb : Canon Spec.SM2.n b) :
@@ -321,12 +323,12 @@ theorem invert_limbs_Fn (x : List Nat) (hx : Canon Spec.SM2.n x) :
 
 /-! ## 4. The element wrappers over `Fp`, `Fn` -/
 
-theorem Fp_params : 1 < Model.SM2.pParams.m ∧ Model.SM2.pParams.m ≤ 2 ^ 256 ∧
+theorem Fp_params : 1 < Model.SM2.pParams.m ∧ Model.SM2.pParams.m ≤ Model.Field.R ∧
     (Model.Field.R * Model.SM2.pParams.rinv) % Model.SM2.pParams.m = 1 := by
   rw [AddChainExp.pParams_m]
   exact ⟨by decide, by decide, AddChainExp.rinv_p⟩
 
-theorem Fn_params : 1 < Model.SM2.nParams.m ∧ Model.SM2.nParams.m ≤ 2 ^ 256 ∧
+theorem Fn_params : 1 < Model.SM2.nParams.m ∧ Model.SM2.nParams.m ≤ Model.Field.R ∧
     (Model.Field.R * Model.SM2.nParams.rinv) % Model.SM2.nParams.m = 1 := by
   rw [AddChainExp.nParams_m]
   exact ⟨by decide, by decide, AddChainExp.rinv_n⟩
@@ -406,11 +408,11 @@ theorem setBytes_bytes_Fn (x : Nat) (hx : x < Spec.SM2.n) :
 theorem multiSelectLimbs_spec (pre : List (List Nat)) (width bits : Nat) (fallback : List Nat)
     (fallbackCond : Nat) (hw : width ≤ 255) :
     (fallbackCond = 1 → 1 ≤ bits → bits ≤ width →
-      (∀ j, j < 4 → (pre.getD (bits - 1) []).getD j 0 < 2 ^ 64) →
+      (∀ j, j < 4 → (pre.getD (bits - 1) []).getD j 0 < 18446744073709551616) →
       Model.Field.multiSelectLimbs pre width bits fallback fallbackCond
         = [(pre.getD (bits - 1) []).getD 0 0, (pre.getD (bits - 1) []).getD 1 0,
            (pre.getD (bits - 1) []).getD 2 0, (pre.getD (bits - 1) []).getD 3 0]) ∧
-    (fallbackCond = 0 → bits = 0 → (∀ j, j < 4 → fallback.getD j 0 < 2 ^ 64) →
+    (fallbackCond = 0 → bits = 0 → (∀ j, j < 4 → fallback.getD j 0 < 18446744073709551616) →
       Model.Field.multiSelectLimbs pre width bits fallback fallbackCond
         = [fallback.getD 0 0, fallback.getD 1 0, fallback.getD 2 0, fallback.getD 3 0]) ∧
     (fallbackCond = 1 → bits = 0 →
@@ -422,10 +424,56 @@ theorem select_spec {α : Type} (a b : α) (cond : Nat) :
   FiatWrappers.select_spec a b cond
 
 /-- the limb view of the `Nat` instance (`raw`/`ofRaw`) is a bijection on 256-bit values -/
-theorem limbs_roundtrip (v : Nat) (h : v < 2 ^ 256) :
+theorem limbs_roundtrip (v : Nat) (h : v < Model.Field.R) :
     Model.Field.limbsToNat (Model.Field.natToLimbs v) = v ∧
-    (Model.Field.natToLimbs v).length = 4 ∧ (∀ x ∈ Model.Field.natToLimbs v, x < 2 ^ 64) :=
+    (Model.Field.natToLimbs v).length = 4 ∧ (∀ x ∈ Model.Field.natToLimbs v, x < 18446744073709551616) :=
   ⟨FiatWrappers.limbs_roundtrip v h, FiatWrappers.natToLimbs_length v, FiatWrappers.natToLimbs_lt v⟩
+
+/-! ## 4b. The same wrappers over the generated functions (limb lists) -/
+
+/-- `Bytes`, `Equal`, `IsZero` computed with the generated functions give the model's answers -/
+theorem wrappers_on_limbs_Fp (e t : List Nat) (he : Limbs4 e) (ht : Limbs4 t) :
+    Model.Field.bytes FiatInst.fiatP e = Model.Field.bytes Model.SM2.Fp (eval e) ∧
+    Model.Field.equal FiatInst.fiatP e t = Model.Field.equal Model.SM2.Fp (eval e) (eval t) ∧
+    Model.Field.isZero FiatInst.fiatP e = Model.Field.isZero Model.SM2.Fp (eval e) :=
+  ⟨FiatInst.bytes_fiatP e he, FiatInst.equal_fiatP e t he ht, FiatInst.isZero_fiatP e he⟩
+
+theorem wrappers_on_limbs_Fn (e t : List Nat) (he : Limbs4 e) (ht : Limbs4 t) :
+    Model.Field.bytes FiatInst.fiatN e = Model.Field.bytes Model.SM2.Fn (eval e) ∧
+    Model.Field.equal FiatInst.fiatN e t = Model.Field.equal Model.SM2.Fn (eval e) (eval t) ∧
+    Model.Field.isZero FiatInst.fiatN e = Model.Field.isZero Model.SM2.Fn (eval e) :=
+  ⟨FiatInst.bytes_fiatN e he, FiatInst.equal_fiatN e t he ht, FiatInst.isZero_fiatN e he⟩
+
+/-- `SetBytes` with the generated functions: accepts exactly length 32 and value < p, the result is
+    canonical limbs holding value·R mod p; otherwise an error -/
+theorem setBytes_limbs_Fp (v : Bytes) :
+    if v.length = 32 ∧ Bytes.toNatBE v < Spec.SM2.p then
+      ∃ l, Model.Field.setBytes FiatInst.fiatP v = .ok l ∧ Canon Spec.SM2.p l ∧
+        eval l = Bytes.toNatBE v * Model.Field.R % Spec.SM2.p
+    else Model.Field.setBytes FiatInst.fiatP v = .err := by
+  have h := setBytes_Fp_spec v
+  split
+  · rename_i hc; rw [if_pos hc] at h; exact (FiatInst.setBytes_fiatP v).1 _ h
+  · rename_i hc; rw [if_neg hc] at h; exact (FiatInst.setBytes_fiatP v).2.1 h
+
+theorem setBytes_limbs_Fn (v : Bytes) :
+    if v.length = 32 ∧ Bytes.toNatBE v < Spec.SM2.n then
+      ∃ l, Model.Field.scalarSetBytes FiatInst.fiatN v = .ok l ∧ Canon Spec.SM2.n l ∧
+        eval l = Bytes.toNatBE v * Model.Field.R % Spec.SM2.n
+    else Model.Field.scalarSetBytes FiatInst.fiatN v = .err := by
+  have h := setBytes_Fn_spec v
+  rw [← scalarSetBytes_eq_setBytes] at h
+  split
+  · rename_i hc; rw [if_pos hc] at h; exact (FiatInst.scalarSetBytes_fiatN v).1 _ h
+  · rename_i hc; rw [if_neg hc] at h; exact (FiatInst.scalarSetBytes_fiatN v).2 h
+
+/-- `Invert` with the generated functions (= `invert_limbs_*`, through the record) -/
+theorem invert_on_limbs (x : List Nat) :
+    (Canon Spec.SM2.p x → Canon Spec.SM2.p (Model.Field.invert FiatInst.fiatP x) ∧
+      eval (Model.Field.invert FiatInst.fiatP x) = Model.Field.invert Model.SM2.Fp (eval x)) ∧
+    (Canon Spec.SM2.n x → Canon Spec.SM2.n (Model.Field.invert FiatInst.fiatN x) ∧
+      eval (Model.Field.invert FiatInst.fiatN x) = Model.Field.invert Model.SM2.Fn (eval x)) :=
+  ⟨FiatInst.invert_fiatP x, FiatInst.invert_fiatN x⟩
 
 /-! ## the hypotheses are satisfiable -/
 
@@ -477,15 +525,15 @@ example := N.fromBytes_refines_Fn (List.replicate 32 255) rfl
 -- inversion: the primality hypotheses hold (Pratt certificates, SMGo/Proofs/Prime.lean)
 example := run_exponent Spec.SM2.p 1 _ _ chains_wellformed.1 3
 example := invert_Fp_spec Prime.p_prime 5 (by decide)
-example := invert_Fp_plain Prime.p_prime (2 ^ 256 % Spec.SM2.p) (by decide +kernel)
+example := invert_Fp_plain Prime.p_prime (Model.Field.R % Spec.SM2.p) (by decide +kernel)
 example := invert_Fn_spec Prime.n_prime 5 (by decide)
-example := invert_Fn_plain Prime.n_prime (2 ^ 256 % Spec.SM2.n) (by decide +kernel)
+example := invert_Fn_plain Prime.n_prime (Model.Field.R % Spec.SM2.n) (by decide +kernel)
 example := invert_limbs_Fp _ exP
 example := invert_limbs_Fn _ exN
 -- wrappers
 example : Model.Field.setBytes Model.SM2.Fp (List.replicate 32 255) = .err :=
   (setBytes_rejects _).1 (Or.inr (by decide))
-example : Model.Field.setBytes Model.SM2.Fn (List.replicate 31 0 ++ [1]) = .ok (2 ^ 256 % Spec.SM2.n) := by
+example : Model.Field.setBytes Model.SM2.Fn (List.replicate 31 0 ++ [1]) = .ok (Model.Field.R % Spec.SM2.n) := by
   rw [setBytes_Fn_spec]; decide
 example (v : Bytes) (x : Nat) (h : Model.Field.setBytes Model.SM2.Fp v = .ok x) :=
   bytes_setBytes_Fp v x h
@@ -497,6 +545,12 @@ example := (multiSelectLimbs_spec [[1, 2, 3, 4], [5, 6, 7, 8], [9, 10, 11, 12]] 
   (by decide)).1 rfl (by decide) (by decide) (by decide)
 example := (multiSelectLimbs_spec [[1, 2, 3, 4]] 1 0 [7, 7, 7, 7] 0 (by decide)).2.1 rfl rfl (by decide)
 example := limbs_roundtrip 12345 (by decide)
+example := wrappers_on_limbs_Fp _ _ exL exP.limbs4
+example := wrappers_on_limbs_Fn _ _ exL exN.limbs4
+example := setBytes_limbs_Fp (List.replicate 32 1)
+example := setBytes_limbs_Fn (List.replicate 32 1)
+example := (invert_on_limbs _).1 exP
+example := (invert_on_limbs _).2 exN
 
 /-! ## axioms -/
 #print axioms param_P_eq
@@ -562,5 +616,10 @@ example := limbs_roundtrip 12345 (by decide)
 #print axioms multiSelectLimbs_spec
 #print axioms select_spec
 #print axioms limbs_roundtrip
+#print axioms wrappers_on_limbs_Fp
+#print axioms wrappers_on_limbs_Fn
+#print axioms setBytes_limbs_Fp
+#print axioms setBytes_limbs_Fn
+#print axioms invert_on_limbs
 
 end SMGo.Props.C16
